@@ -15,7 +15,10 @@ Open Scope Z_scope.
 (* ================================================================================= *)
 (* a store: the values of the int locals in scope (signed, in range) and of the bool locals
    (0 / 1), in declaration order *)
-Record store := mkstore { si : list Z; sb : list Z; sg : list Z }.   (* sg: the int globals *)
+Record store := mkstore { si : list Z; sb : list Z; sg : list Z; sgb : list Z }.   (* sg / sgb: the int / bool globals *)
+(* the global part of a store *)
+Definition gstore := (list Z * list Z)%type.
+Definition gs_of (s : store) : gstore := (sg s, sgb s).
 Fixpoint upd (i : nat) (v : Z) (l : list Z) : list Z :=
   match l, i with
   | [], _ => []
@@ -24,14 +27,14 @@ Fixpoint upd (i : nat) (v : Z) (l : list Z) : list Z :=
   end.
 (* leaving a block: the locals declared inside disappear *)
 Definition trunc (s0 s : store) : store :=
-  mkstore (firstn (length (si s0)) (si s)) (firstn (length (sb s0)) (sb s)) (sg s).
+  mkstore (firstn (length (si s0)) (si s)) (firstn (length (sb s0)) (sb s)) (sg s) (sgb s).
 
 (* how a run of a statement list can end.  Faults are the run-time checks of a checked build. *)
 Inductive fault := FDivZero | FStackOverflow.
 Inductive outcome := ONormal | OBreak | OContinue | OReturn (v : option Z) | OFault (f : fault).
 (* how a call ends *)
 (* how a call ends: a result and the int globals as the callee left them, or a fault *)
-Inductive cres := CRet (v : option Z) (G : list Z) | CFault (f : fault).
+Inductive cres := CRet (v : option Z) (G : gstore) | CFault (f : fault).
 (* outcomes that leave the enclosing function *)
 Definition leaves (out : outcome) : Prop := match out with OReturn _ | OFault _ => True | _ => False end.
 Lemma outcome_normal_dec (out : outcome) : {out = ONormal} + {out <> ONormal}.
@@ -54,7 +57,8 @@ Fixpoint ieval (s : store) (o : iopd) : Z :=
 Fixpoint bevals (s : store) (e : bexpr) : bool :=
   match e with
   | BLit b => b
-  | BVar j => negb (nth j (sb s) 0 =? 0)
+  | BVar (BLocal j) => negb (nth j (sb s) 0 =? 0)
+  | BVar (BGlobal h) => negb (nth h (sgb s) 0 =? 0)
   | BCmp op a b => cmp_sem op (ieval s a) (ieval s b)
   | BNot e1 => negb (bevals s e1)
   | BAnd e1 e2 => bevals s e1 && bevals s e2          (* right operand has no effects: && is short-circuit *)
@@ -70,24 +74,25 @@ Definition wbyte (s : store) (x : wexpr) : Z :=
    locals in scope. *)
 Definition frame_top (s : store) : Z := w * (1 + Z.of_nat (length (si s))) + Z.of_nat (length (sb s)).
 (* what a call leaves in the caller's store *)
-Definition with_g (s : store) (G : list Z) : store := mkstore (si s) (sb s) G.
-Definition set_g (s : store) (g : nat) (v : Z) : store := mkstore (si s) (sb s) (upd g v (sg s)).
+Definition with_g (s : store) (G : gstore) : store := mkstore (si s) (sb s) (fst G) (snd G).
+Definition set_g (s : store) (g : nat) (v : Z) : store := mkstore (si s) (sb s) (upd g v (sg s)) (sgb s).
+Definition set_gb (s : store) (h : nat) (v : Z) : store := mkstore (si s) (sb s) (sg s) (upd h v (sgb s)).
 Definition dest_store (dst : dest) (v : option Z) (s s' : store) : Prop :=
   match dst with
   | DAssignG g => exists x, v = Some x /\ (g < length (sg s))%nat /\ s' = set_g s g x
   | DNone => s' = s
-  | DDecl => exists x, v = Some x /\ s' = mkstore (si s ++ [x]) (sb s) (sg s)
-  | DAssign i => exists x, v = Some x /\ (i < length (si s))%nat /\ s' = mkstore (upd i x (si s)) (sb s) (sg s)
+  | DDecl => exists x, v = Some x /\ s' = mkstore (si s ++ [x]) (sb s) (sg s) (sgb s)
+  | DAssign i => exists x, v = Some x /\ (i < length (si s))%nat /\ s' = mkstore (upd i x (si s)) (sb s) (sg s) (sgb s)
   end.
 
 (* exec d s σ out_bytes outcome σ' *)
 Inductive exec : Z -> stmt -> store -> list Z -> outcome -> store -> Prop :=
-| X_decli d o s : exec d (SDeclI o) s [] ONormal (mkstore (si s ++ [ieval s o]) (sb s) (sg s))
+| X_decli d o s : exec d (SDeclI o) s [] ONormal (mkstore (si s ++ [ieval s o]) (sb s) (sg s) (sgb s))
 | X_assi d i o s : (i < length (si s))%nat ->
-    exec d (SAssignI i o) s [] ONormal (mkstore (upd i (ieval s o) (si s)) (sb s) (sg s))
-| X_declb d e s : exec d (SDeclB e) s [] ONormal (mkstore (si s) (sb s ++ [b2z (bevals s e)]) (sg s))
+    exec d (SAssignI i o) s [] ONormal (mkstore (upd i (ieval s o) (si s)) (sb s) (sg s) (sgb s))
+| X_declb d e s : exec d (SDeclB e) s [] ONormal (mkstore (si s) (sb s ++ [b2z (bevals s e)]) (sg s) (sgb s))
 | X_assb d j e s : (j < length (sb s))%nat ->
-    exec d (SAssignB j e) s [] ONormal (mkstore (si s) (upd j (b2z (bevals s e)) (sb s)) (sg s))
+    exec d (SAssignB j e) s [] ONormal (mkstore (si s) (upd j (b2z (bevals s e)) (sb s)) (sg s) (sgb s))
 | X_write d x s : exec d (SWrite x) s [wbyte s x] ONormal s
 | X_writeln d s : exec d SWriteln s [10] ONormal s
 | X_writei d ln o s :                                 (* the decimal representation of the value *)
@@ -115,23 +120,25 @@ Inductive exec : Z -> stmt -> store -> list Z -> outcome -> store -> Prop :=
 | X_continue d s : exec d SContinue s [] OContinue s
 (* division in a checked build: a zero divisor is the fault division_by_zero *)
 | X_decldiv d op a b s : ieval s b <> 0 ->
-    exec d (SDeclDiv op a b) s [] ONormal (mkstore (si s ++ [swrap (arith_sem op (ieval s a) (ieval s b))]) (sb s) (sg s))
+    exec d (SDeclDiv op a b) s [] ONormal (mkstore (si s ++ [swrap (arith_sem op (ieval s a) (ieval s b))]) (sb s) (sg s) (sgb s))
 | X_decldiv_fault d op a b s : ieval s b = 0 -> exec d (SDeclDiv op a b) s [] (OFault FDivZero) s
 | X_assdiv d i op a b s : (i < length (si s))%nat -> ieval s b <> 0 ->
-    exec d (SAssignDiv i op a b) s [] ONormal (mkstore (upd i (swrap (arith_sem op (ieval s a) (ieval s b))) (si s)) (sb s) (sg s))
+    exec d (SAssignDiv i op a b) s [] ONormal (mkstore (upd i (swrap (arith_sem op (ieval s a) (ieval s b))) (si s)) (sb s) (sg s) (sgb s))
 | X_assdiv_fault d i op a b s : ieval s b = 0 -> exec d (SAssignDiv i op a b) s [] (OFault FDivZero) s
 (* calls: the arguments are evaluated left to right in the caller's store *)
 | X_call d dst f args s evs v G' s' :                  (* the callee sees and may change the globals *)
-    callf (d - frame_top s) f (map (ieval s) args) (sg s) evs (CRet v G') -> dest_store dst v (with_g s G') s' ->
+    callf (d - frame_top s) f (map (ieval s) args) (gs_of s) evs (CRet v G') -> dest_store dst v (with_g s G') s' ->
     exec d (SCall dst f args) s evs ONormal s'
 | X_call_fault d dst f args s evs ft :
-    callf (d - frame_top s) f (map (ieval s) args) (sg s) evs (CFault ft) ->
+    callf (d - frame_top s) f (map (ieval s) args) (gs_of s) evs (CFault ft) ->
     exec d (SCall dst f args) s evs (OFault ft) s
 (* assignment to an int global *)
 | X_assg d g o s : (g < length (sg s))%nat -> exec d (SAssignG g o) s [] ONormal (set_g s g (ieval s o))
 | X_assgdiv d g op a b s : (g < length (sg s))%nat -> ieval s b <> 0 ->
     exec d (SAssignGDiv g op a b) s [] ONormal (set_g s g (swrap (arith_sem op (ieval s a) (ieval s b))))
 | X_assgdiv_fault d g op a b s : ieval s b = 0 -> exec d (SAssignGDiv g op a b) s [] (OFault FDivZero) s
+(* assignment to a bool global *)
+| X_assbg d h e s : (h < length (sgb s))%nat -> exec d (SAssignBG h e) s [] ONormal (set_gb s h (b2z (bevals s e)))
 | X_return d s : exec d (SReturn None) s [] (OReturn None) s
 | X_return_val d o s : exec d (SReturn (Some o)) s [] (OReturn (Some (ieval s o))) s
 with execs : Z -> stmts -> store -> list Z -> outcome -> store -> Prop :=
@@ -141,13 +148,13 @@ with execs : Z -> stmts -> store -> list Z -> outcome -> store -> Prop :=
 | XS_exit d s r s0 e1 out s1 :
     exec d s s0 e1 out s1 -> out <> ONormal -> execs d (SCons s r) s0 e1 out s1
 (* callf d f args events result: function f called with d bytes below its frame pointer *)
-with callf : Z -> nat -> list Z -> list Z -> list Z -> cres -> Prop :=
+with callf : Z -> nat -> list Z -> gstore -> list Z -> cres -> Prop :=
 | CF_overflow d f vs G fd : nth_error funs f = Some fd -> d < fun_need w fd ->
     callf d f vs G [] (CFault FStackOverflow)
 | CF_return d f vs G fd evs v s1 : nth_error funs f = Some fd -> fun_need w fd <= d ->
-    execs d (fn_body fd) (mkstore vs [] G) evs (OReturn v) s1 -> callf d f vs G evs (CRet v (sg s1))
+    execs d (fn_body fd) (mkstore vs [] (fst G) (snd G)) evs (OReturn v) s1 -> callf d f vs G evs (CRet v (gs_of s1))
 | CF_fault d f vs G fd evs ft s1 : nth_error funs f = Some fd -> fun_need w fd <= d ->
-    execs d (fn_body fd) (mkstore vs [] G) evs (OFault ft) s1 -> callf d f vs G evs (CFault ft).
+    execs d (fn_body fd) (mkstore vs [] (fst G) (snd G)) evs (OFault ft) s1 -> callf d f vs G evs (CFault ft).
 End Source.
 Scheme exec_ind2 := Minimality for exec Sort Prop
   with execs_ind2 := Minimality for execs Sort Prop
@@ -163,10 +170,10 @@ Fixpoint istmt (fuel : nat) (d : Z) (s : stmt) (s0 : store) : option (list Z * o
   | O => None
   | S f =>
     match s with
-    | SDeclI o => Some ([], ONormal, mkstore (si s0 ++ [ieval w s0 o]) (sb s0) (sg s0))
-    | SAssignI i o => if (i <? length (si s0))%nat then Some ([], ONormal, mkstore (upd i (ieval w s0 o) (si s0)) (sb s0) (sg s0)) else None
-    | SDeclB e => Some ([], ONormal, mkstore (si s0) (sb s0 ++ [b2z (bevals w s0 e)]) (sg s0))
-    | SAssignB j e => if (j <? length (sb s0))%nat then Some ([], ONormal, mkstore (si s0) (upd j (b2z (bevals w s0 e)) (sb s0)) (sg s0)) else None
+    | SDeclI o => Some ([], ONormal, mkstore (si s0 ++ [ieval w s0 o]) (sb s0) (sg s0) (sgb s0))
+    | SAssignI i o => if (i <? length (si s0))%nat then Some ([], ONormal, mkstore (upd i (ieval w s0 o) (si s0)) (sb s0) (sg s0) (sgb s0)) else None
+    | SDeclB e => Some ([], ONormal, mkstore (si s0) (sb s0 ++ [b2z (bevals w s0 e)]) (sg s0) (sgb s0))
+    | SAssignB j e => if (j <? length (sb s0))%nat then Some ([], ONormal, mkstore (si s0) (upd j (b2z (bevals w s0 e)) (sb s0)) (sg s0) (sgb s0)) else None
     | SWrite x => Some ([wbyte w s0 x], ONormal, s0)
     | SWriteln => Some ([10], ONormal, s0)
     | SWriteI ln o => Some (decimal (ieval w s0 o) ++ (if ln then [10] else []), ONormal, s0)
@@ -204,20 +211,20 @@ Fixpoint istmt (fuel : nat) (d : Z) (s : stmt) (s0 : store) : option (list Z * o
     | SContinue => Some ([], OContinue, s0)
     | SDeclDiv op a b =>
         if ieval w s0 b =? 0 then Some ([], OFault FDivZero, s0)
-        else Some ([], ONormal, mkstore (si s0 ++ [swrap w (arith_sem op (ieval w s0 a) (ieval w s0 b))]) (sb s0) (sg s0))
+        else Some ([], ONormal, mkstore (si s0 ++ [swrap w (arith_sem op (ieval w s0 a) (ieval w s0 b))]) (sb s0) (sg s0) (sgb s0))
     | SAssignDiv i op a b =>
         if ieval w s0 b =? 0 then Some ([], OFault FDivZero, s0)
         else if (i <? length (si s0))%nat
-             then Some ([], ONormal, mkstore (upd i (swrap w (arith_sem op (ieval w s0 a) (ieval w s0 b))) (si s0)) (sb s0) (sg s0))
+             then Some ([], ONormal, mkstore (upd i (swrap w (arith_sem op (ieval w s0 a) (ieval w s0 b))) (si s0)) (sb s0) (sg s0) (sgb s0))
              else None
     | SCall dst g args =>
-        match icall f (d - frame_top w s0) g (map (ieval w s0) args) (sg s0) with
+        match icall f (d - frame_top w s0) g (map (ieval w s0) args) (gs_of s0) with
         | Some (e, CRet v G') =>
             match dst, v with
             | DNone, _ => Some (e, ONormal, with_g s0 G')
-            | DDecl, Some x => Some (e, ONormal, mkstore (si s0 ++ [x]) (sb s0) G')
-            | DAssign i, Some x => if (i <? length (si s0))%nat then Some (e, ONormal, mkstore (upd i x (si s0)) (sb s0) G') else None
-            | DAssignG k, Some x => if (k <? length G')%nat then Some (e, ONormal, set_g (with_g s0 G') k x) else None
+            | DDecl, Some x => Some (e, ONormal, mkstore (si s0 ++ [x]) (sb s0) (fst G') (snd G'))
+            | DAssign i, Some x => if (i <? length (si s0))%nat then Some (e, ONormal, mkstore (upd i x (si s0)) (sb s0) (fst G') (snd G')) else None
+            | DAssignG k, Some x => if (k <? length (fst G'))%nat then Some (e, ONormal, set_g (with_g s0 G') k x) else None
             | _, None => None
             end
         | Some (e, CFault ft) => Some (e, OFault ft, s0)
@@ -229,6 +236,7 @@ Fixpoint istmt (fuel : nat) (d : Z) (s : stmt) (s0 : store) : option (list Z * o
         else if (k <? length (sg s0))%nat
              then Some ([], ONormal, set_g s0 k (swrap w (arith_sem op (ieval w s0 a) (ieval w s0 b))))
              else None
+    | SAssignBG k e => if (k <? length (sgb s0))%nat then Some ([], ONormal, set_gb s0 k (b2z (bevals w s0 e))) else None
     | SReturn None => Some ([], OReturn None, s0)
     | SReturn (Some o) => Some ([], OReturn (Some (ieval w s0 o)), s0)
     end
@@ -251,7 +259,7 @@ with istmts (fuel : nat) (d : Z) (ss : stmts) (s0 : store) : option (list Z * ou
         end
     end
   end
-with icall (fuel : nat) (d : Z) (g : nat) (vs G : list Z) : option (list Z * cres) :=
+with icall (fuel : nat) (d : Z) (g : nat) (vs : list Z) (G : gstore) : option (list Z * cres) :=
   match fuel with
   | O => None
   | S f =>
@@ -259,8 +267,8 @@ with icall (fuel : nat) (d : Z) (g : nat) (vs G : list Z) : option (list Z * cre
     | None => None
     | Some fd =>
         if d <? fun_need w fd then Some ([], CFault FStackOverflow)
-        else match istmts f d (fn_body fd) (mkstore vs [] G) with
-             | Some (e, OReturn v, s1) => Some (e, CRet v (sg s1))
+        else match istmts f d (fn_body fd) (mkstore vs [] (fst G) (snd G)) with
+             | Some (e, OReturn v, s1) => Some (e, CRet v (gs_of s1))
              | Some (e, OFault ft, _) => Some (e, CFault ft)
              | _ => None
              end
@@ -274,7 +282,7 @@ Theorem interp_sound fuel :
 Proof.
   induction fuel as [|f [IHs [IHss IHc]]]; [split; [|split]; intros; discriminate|]. split; [|split].
   - intros d s s0 e out s1 H.
-    destruct s as [o|i o|b|j b|x| |ln o|ln b|c t1 t2|c b k|ss| | |op a b|i op a b|dst g args|r|k o|k op a b]; cbn [istmt] in H.
+    destruct s as [o|i o|b|j b|x| |ln o|ln b|c t1 t2|c b k|ss| | |op a b|i op a b|dst g args|r|k o|k op a b|k b]; cbn [istmt] in H.
     + inversion H; subst. constructor.
     + destruct (Nat.ltb_spec i (length (si s0))); [|discriminate]. inversion H; subst. constructor. assumption.
     + inversion H; subst. constructor.
@@ -315,19 +323,20 @@ Proof.
     + destruct (Z.eqb_spec (ieval w s0 b) 0) as [Z0|Nz]; inversion H; subst; constructor; assumption.
     + destruct (Z.eqb_spec (ieval w s0 b) 0) as [Z0|Nz]; [inversion H; subst; constructor; assumption|].
       destruct (Nat.ltb_spec i (length (si s0))); [|discriminate]. inversion H; subst. constructor; assumption.
-    + destruct (icall f (d - frame_top w s0) g (map (ieval w s0) args) (sg s0)) as [[e' [v G'|ft]]|] eqn:Ei; [| |discriminate].
+    + destruct (icall f (d - frame_top w s0) g (map (ieval w s0) args) (gs_of s0)) as [[e' [v G'|ft]]|] eqn:Ei; [| |discriminate].
       * apply IHc in Ei. destruct dst as [| |i|k].
         -- inversion H; subst. eapply X_call; [exact Ei | reflexivity].
         -- destruct v as [x|]; [|discriminate]. inversion H; subst. eapply X_call; [exact Ei | exists x; split; reflexivity].
         -- destruct v as [x|]; [|discriminate]. destruct (Nat.ltb_spec i (length (si s0))); [|discriminate]. inversion H; subst.
            eapply X_call; [exact Ei | exists x; split; [reflexivity | split; [assumption | reflexivity]]].
-        -- destruct v as [x|]; [|discriminate]. destruct (Nat.ltb_spec k (length G')); [|discriminate]. inversion H; subst.
+        -- destruct v as [x|]; [|discriminate]. destruct (Nat.ltb_spec k (length (fst G'))); [|discriminate]. inversion H; subst.
            eapply X_call; [exact Ei | exists x; split; [reflexivity | split; [assumption | reflexivity]]].
       * apply IHc in Ei. inversion H; subst. eapply X_call_fault. exact Ei.
     + destruct r as [o|]; inversion H; subst; constructor.
     + destruct (Nat.ltb_spec k (length (sg s0))); [|discriminate]. inversion H; subst. constructor. assumption.
     + destruct (Z.eqb_spec (ieval w s0 b) 0) as [Z0|Nz]; [inversion H; subst; constructor; assumption|].
       destruct (Nat.ltb_spec k (length (sg s0))); [|discriminate]. inversion H; subst. constructor; assumption.
+    + destruct (Nat.ltb_spec k (length (sgb s0))); [|discriminate]. inversion H; subst. constructor. assumption.
   - intros d ss s0 e out s1 H. destruct ss as [|s r]; cbn [istmts] in H; [inversion H; subst; constructor|].
     destruct (istmt f d s s0) as [[[e1 out1] s1']|] eqn:E1; [|discriminate].
     destruct (outcome_normal_dec out1) as [-> | N1].
@@ -338,7 +347,7 @@ Proof.
   - intros d g vs G e res H. cbn [icall] in H. destruct (nth_error funs g) as [fd|] eqn:Eg; [|discriminate].
     destruct (Z.ltb_spec d (fun_need w fd)) as [Lt|Ge].
     + inversion H; subst. eapply CF_overflow; eassumption.
-    + destruct (istmts f d (fn_body fd) (mkstore vs [] G)) as [[[e' out'] s']|] eqn:Eb; [|discriminate].
+    + destruct (istmts f d (fn_body fd) (mkstore vs [] (fst G) (snd G))) as [[[e' out'] s']|] eqn:Eb; [|discriminate].
       destruct out'; try discriminate; inversion H; subst; [eapply CF_return | eapply CF_fault]; try eassumption; apply IHss; exact Eb.
 Qed.
 End Interp.
@@ -349,6 +358,7 @@ End Interp.
 Section CheckDefs.
 Variable w : Z.
 Variable ng : nat.                 (* the number of int globals *)
+Variable nbg : nat.                (* the number of bool globals *)
 Variable cfb : nat -> nat -> bool.
 Fixpoint oscoped_b (ni : nat) (o : iopd) : bool :=
   match o with
@@ -361,7 +371,8 @@ Fixpoint oscoped_b (ni : nat) (o : iopd) : bool :=
 Fixpoint bscoped_b (ni nb : nat) (e : bexpr) : bool :=
   match e with
   | BLit _ => true
-  | BVar j => (j <? nb)%nat
+  | BVar (BLocal j) => (j <? nb)%nat
+  | BVar (BGlobal h) => (h <? nbg)%nat
   | BCmp _ a b => oscoped_b ni a && oscoped_b ni b
   | BNot e1 => bscoped_b ni nb e1
   | BAnd e1 e2 | BOr e1 e2 => bscoped_b ni nb e1 && bscoped_b ni nb e2
@@ -373,7 +384,7 @@ Fixpoint sscoped_b (ni nb : nat) (inloop : bool) (s : stmt) : bool :=
   | SAssignI i o => (i <? ni)%nat && oscoped_b ni o
   | SDeclB e => bscoped_b ni nb e
   | SAssignB j e => (j <? nb)%nat && bscoped_b ni nb e
-  | SWrite (WrByte o) => oscoped_b ni o && negb (is_glob o)
+  | SWrite (WrByte o) => oscoped_b ni o
   | SWrite _ | SWriteln => true
   | SWriteI _ o => oscoped_b ni o
   | SWriteB _ e => bscoped_b ni nb e
@@ -387,9 +398,9 @@ Fixpoint sscoped_b (ni nb : nat) (inloop : bool) (s : stmt) : bool :=
       match dst with DAssign i => (i <? ni)%nat | DAssignG g => (g <? ng)%nat | _ => true end && cfb f (length args) && forallb (oscoped_b ni) args
   | SReturn (Some o) => oscoped_b ni o
   | SReturn None => true
-  (* proved for right-hand sides that are a literal, a variable, or one binary operation *)
-  | SAssignG g o => (g <? ng)%nat && oscoped_b ni o && match o with OUn _ _ => false | _ => true end
-  | SAssignGDiv _ _ _ _ => false     (* modelled and tied, not covered by the theorems *)
+  | SAssignG g o => (g <? ng)%nat && oscoped_b ni o
+  | SAssignGDiv g op a b => (g <? ng)%nat && divop_b op && oscoped_b ni a && oscoped_b ni b
+  | SAssignBG h e => (h <? nbg)%nat && bscoped_b ni nb e
   end
 with ssscoped_b (ni nb : nat) (inloop : bool) (ss : stmts) : bool :=
   match ss with
@@ -406,20 +417,20 @@ with ssscoped_b (ni nb : nat) (inloop : bool) (ss : stmts) : bool :=
 End CheckDefs.
 Definition cf_b (funs : list fundef) (ord : list nat) (f n : nat) : bool :=
   existsb (Nat.eqb f) ord && match nth_error funs f with Some fd => Nat.eqb (fn_params fd) n | None => false end.
-Definition fun_ok_b (w : Z) (ng : nat) (funs : list fundef) (ord : list nat) (f : nat) : bool :=
+Definition fun_ok_b (w : Z) (ng nbg : nat) (funs : list fundef) (ord : list nat) (f : nat) : bool :=
   match nth_error funs f with
   | Some fd => (0 <=? fun_need w fd) && (fun_need w fd <? Machine.W w / 2) &&
-               ssscoped_b w ng (cf_b funs ord) (fn_params fd) 0 false (fn_body fd)
+               ssscoped_b w ng nbg (cf_b funs ord) (fn_params fd) 0 false (fn_body fd)
   | None => false
   end.
-Definition prog_ok_b (w : Z) (ng : nat) (funs : list fundef) (nargs : nat) : bool :=
+Definition prog_ok_b (w : Z) (ng nbg : nat) (funs : list fundef) (nargs : nat) : bool :=
   let ord := program_order funs in
   match ord with 0%nat :: _ => true | _ => false end &&
-  forallb (fun_ok_b w ng funs ord) ord && cf_b funs ord 0 nargs.
+  forallb (fun_ok_b w ng nbg funs ord) ord && cf_b funs ord 0 nargs.
 
 (* all hypotheses of the program theorem that concern the program, the stack size and the number
    of arguments, as one boolean (used by the correspondence to select the runs the theorem covers) *)
-Definition run_ok_b (w : Z) (ng : nat) (funs : list fundef) (stack : Z) (nargs : nat) : bool :=
-  prog_ok_b w ng funs nargs && (0 <=? stack) &&
+Definition run_ok_b (w : Z) (ng nbg : nat) (funs : list fundef) (stack : Z) (nargs : nat) : bool :=
+  prog_ok_b w ng nbg funs nargs && (0 <=? stack) &&
   (size (lower_program w funs) + GenStdlib.stdlib_len <=? Machine.W w) &&
   ((stack + Z.of_nat nargs + 6) * w <? Machine.W w / 2).
